@@ -346,3 +346,31 @@ def handleLineEquiv : List String → Option String
   | _ => none
 
 end ParolModel
+
+namespace ParolModel
+
+/-- `crOkP pend w`: every carriage return in `w` is immediately followed by a line feed; `pend`
+    says that the character before `w` was a carriage return. -/
+def crOkP : Bool → List Nat → Bool
+  | pend, [] => !pend
+  | true, x :: r => x == 10 && crOkP false r
+  | false, x :: r => crOkP (x == 13) r
+
+/-- Every carriage return is immediately followed by a line feed (no CR-only line ends). -/
+def crOk (w : List Nat) : Bool := crOkP false w
+
+/-- Restriction of an automaton to the texts with `crOk`: `none` is a dead state, the flag records
+    a pending carriage return. -/
+def crlfGuard {σ : Type} (A : Aut σ) : Aut (Option (σ × Bool)) where
+  step := fun st x => match st with
+    | none => none
+    | some (q, true) => if x = 10 then some (A.step q x, false) else none
+    | some (q, false) => some (A.step q x, x == 13)
+  acc := fun st => match st with
+    | none => false
+    | some (q, pend) => !pend && A.acc q
+  cuts := fun st => match st with
+    | none => []
+    | some (q, _) => [10, 11, 13, 14] ++ A.cuts q
+
+end ParolModel
